@@ -155,8 +155,10 @@ class IrcCallback(IrcCommandDispatcher, log.Firewalled):
             cb = irc.getCallback(name)
             if cb is not None:
                 before.append(cb)
-        assert self not in after, '%s was in its own after.' % self.name()
-        assert self not in before, '%s was in its own before.' % self.name()
+        # A callback that names itself ends up in its own before/after list;
+        # Irc.addCallback rejects that like any other cycle.  (Asserting it
+        # here was pointless: this method is firewalled, the assertion was
+        # logged and *all* constraints of the callback were dropped.)
         return (before, after)
 
     def inFilter(self, irc, msg):
@@ -1178,8 +1180,8 @@ class Irc(IrcCommandDispatcher, log.Firewalled):
         edges = set()
         for cb in self.callbacks:
             (before, after) = cb.callPrecedence(self)
-            assert cb not in after, 'cb was in its own after.'
-            assert cb not in before, 'cb was in its own before.'
+            # (cb in its own before/after gives the edge (cb, cb): a cycle,
+            # rejected below after taking the new callback out again.)
             for otherCb in before:
                 edges.add((otherCb, cb))
             for otherCb in after:
